@@ -48,6 +48,11 @@ def _is_sock_name(func, e):
 
 
 def run(repo, chk):
+    _run(repo, chk)
+    rule_g(repo, chk)
+
+
+def _run(repo, chk):
     chk.not_decided = ['order and content of the bytes delivered as read events', 'what the kernel reports for half-closed connections',
                        'client components other than the one-disconnect guard']
     chk.rule('C12.a', 'connect is fired once per accepted socket, after it is in the client list and registered with the poller')
@@ -264,3 +269,16 @@ def run(repo, chk):
     bad = any(Q.reachable_without(gc, s_, avoid_node=lambda n: n in pdc) is not None for s_ in scc)
     chk.ob('c', ccl.ref, 'the client discards its socket from the poller before closing it', bool(pdc) and bool(scc) and not bad, loc(ccl, ccl.node),
            discr='client-discard-before-close')
+
+
+def rule_g(repo, chk):
+    chk.rule('C12.g', 'the write routine of a server connection never tears the connection down: a failed send gives up the output only; input that has '
+                      'arrived is still delivered and the read path (end of stream / its own error), a close request or the poller ends the connection')
+    w = repo.func(SOCKETS, 'Server._write')
+    chk.touch(w)
+    g = w.cfg()
+    tears = [n for n in g.nodes if n.kind == 'stmt' and (any(r == 'self' for r, _c in pat.method_calls(n.ast, '_close')) or
+                                                         any(r == w.params[1] for m_ in ('close', 'shutdown') for r, _c in pat.method_calls(n.ast, m_)) or
+                                                         any(r == 'self._poller' for m_ in ('discard', 'removeReader') for r, _c in pat.method_calls(n.ast, m_)))]
+    chk.ob('g', w.ref, 'a send error does not close the socket or stop reading from it (unread input would be lost)', not tears, loc(w, tears[0].ast if tears else w.node),
+           detail='; '.join(n.text for n in tears), discr='send-error-keeps-reading')
